@@ -43,6 +43,12 @@ Proof.
       apply IH. intros k Hk. apply (H (S k)). lia.
 Qed.
 
+Lemma nth_firstn_lt {A} (l : list A) m c d : c < m -> nth c (firstn m l) d = nth c l d.
+Proof.
+  revert l c; induction m as [|m IH]; intros l c H; [lia|].
+  destruct l; simpl; auto. destruct c; auto. apply IH. lia.
+Qed.
+
 Lemma nth_skipn_add {A} (l : list A) a c d : nth c (skipn a l) d = nth (a + c) l d.
 Proof.
   revert l; induction a as [|a IH]; intros l; simpl; auto.
@@ -680,27 +686,25 @@ Proof.
   split; auto. split; auto. intros c Hc. apply G. unfold glinelen in D1. lia.
 Qed.
 
+(* total: every request start <= end <= size writes exactly the cells [start,end) *)
 Theorem const_row_returns_true_entries k a e s :
   Inv s -> k < gsize s -> a <= e -> e <= gsize s ->
-  (gcm_row_const k a e s = None <-> glinelen s k < a) /\
-  forall l, gcm_row_const k a e s = Some l ->
-    length l = Nat.max (glinelen s k) e - a /\
-    forall c, c < length l -> nth c l gv = bentry (gbase s) k (a + c).
+  length (gcm_row_const k a e s) = e - a /\
+  forall c, c < e - a -> nth c (gcm_row_const k a e s) gv = bentry (gbase s) k (a + c).
 Proof.
   intros I Hk Hae Hen. pose proof (I_ok s I) as OK. unfold gcm_row_const.
-  destruct (Nat.ltb_spec (glinelen s k) a) as [H|H].
-  - split; [tauto|]. intros l Hl. discriminate.
-  - split; [split; [discriminate|lia]|]. intros l Hl. inversion Hl; subst l; clear Hl.
-    assert (G0 : good_line (gbase s) k (gline s k)) by (intros c Hc; apply (I_val s I); exact Hc).
-    assert (LB : length (browf (gbase s) k (glinelen s k) e) = e - glinelen s k) by (apply brow_length; auto).
-    split.
-    + rewrite app_length, skipn_length, LB. unfold glinelen in *. lia.
-    + intros c Hc. rewrite app_length, skipn_length, LB in Hc.
-      destruct (Nat.lt_ge_cases c (glinelen s k - a)) as [Hlt|Hge].
-      * rewrite app_nth1 by (rewrite skipn_length; exact Hlt).
-        rewrite nth_skipn_add. apply G0. unfold glinelen in *. lia.
-      * rewrite app_nth2 by (rewrite skipn_length; exact Hge). rewrite skipn_length.
-        rewrite brow_nth by (auto; unfold glinelen in *; lia). f_equal. unfold glinelen in *. lia.
+  set (m := Nat.min (glinelen s k) e). set (f := Nat.max a m).
+  assert (G0 : good_line (gbase s) k (gline s k)) by (intros c Hc; apply (I_val s I); exact Hc).
+  assert (LB : length (browf (gbase s) k f e) = e - f) by (apply brow_length; auto).
+  assert (LF : length (firstn (m - a) (skipn a (gline s k))) = m - a).
+  { rewrite firstn_length, skipn_length. unfold m, glinelen. lia. }
+  split.
+  - rewrite app_length, LF, LB. unfold f, m. lia.
+  - intros c Hc. destruct (Nat.lt_ge_cases c (m - a)) as [Hlt|Hge].
+    + rewrite app_nth1 by (rewrite LF; exact Hlt). rewrite nth_firstn_lt by exact Hlt.
+      rewrite nth_skipn_add. apply G0. unfold m, glinelen in *. lia.
+    + rewrite app_nth2 by (rewrite LF; exact Hge). rewrite LF.
+      rewrite brow_nth by (auto; unfold f, m in *; lia). f_equal. unfold f, m in *. lia.
 Qed.
 
 (* ---- two rows ---- *)
@@ -757,11 +761,6 @@ Qed.
 End CompProofs.
 
 (* ================= the composed statement ================= *)
-Lemma nth_firstn_lt {A} (l : list A) m c d : c < m -> nth c (firstn m l) d = nth c l d.
-Proof.
-  revert l c; induction m as [|m IH]; intros l c H; [lia|].
-  destruct l; simpl; auto. destruct c; auto. apply IH. lia.
-Qed.
 
 Lemma tot_const {A} (m : list (list A)) w :
   (forall r, r < length m -> length (nth r m []) = w) -> tot m = length m * w.
@@ -948,20 +947,19 @@ Proof.
   intros c Hc. rewrite G by exact Hc. wf_split W. apply U; lia.
 Qed.
 
-(* the const overload (out-of-order access into caller storage), sub-ranges [a,e) included *)
+(* the const overload (out-of-order access into caller storage): for EVERY sub-range a <= e <= n exactly the
+   cells [a,e), the cache state is not an argument of the result type (observation only) *)
 Theorem composed_row_const mx ops k a e :
   let s := grun (ginit b0 mx) ops in let p := cperm n ops in
   k < n -> a <= e -> e <= n ->
-  (gcm_row_const k a e s = None <-> glinelen s k < a) /\
-  forall l, gcm_row_const k a e s = Some l ->
-    length l = Nat.max (glinelen s k) e - a /\
-    forall c, c < length l -> nth c l gv = bentry b0 (nth k p 0) (nth (a + c) p 0).
+  gstep s (GRowC k a e) = s /\
+  length (gcm_row_const k a e s) = e - a /\
+  forall c, c < e - a -> nth c (gcm_row_const k a e s) gv = bentry b0 (nth k p 0) (nth (a + c) p 0).
 Proof.
   intros s p Hk Hae Hen. destruct (composed_inv mx ops) as [I SZ LP PP U]. fold s in I, SZ, U. fold p in LP, PP, U.
-  destruct (const_row_returns_true_entries ok FA k a e s I) as [N1 S1]; try lia.
-  split; [exact N1|]. intros l Hl. destruct (S1 l Hl) as [L1 V1]. split; [exact L1|].
-  intros c Hc. rewrite V1 by exact Hc. apply U; auto.
-  pose proof (I_llen ok s I k). lia.
+  destruct (const_row_returns_true_entries ok FA k a e s I) as [L1 V1]; try lia.
+  split; [unfold gstep; destruct (gwf_op s (GRowC k a e)); reflexivity|]. split; [exact L1|].
+  intros c Hc. rewrite V1 by exact Hc. apply U; lia.
 Qed.
 
 (* the base matrix alone, after any list of flips *)
